@@ -450,11 +450,13 @@ def status_dict(snap_status):
     return dict(snap_status) if isinstance(snap_status, tuple) else {}
 
 
-def in_exact_float_domain(vals, nf):
+def in_exact_float_domain(vals, nf, saturating=False):
     for v in vals:
+        sc = Q.scale(v, nf)
+        if saturating and abs(sc) >= (1 << 53):
+            continue    # far beyond any <=52-bit word: saturates whatever the precision of intermediates
         if not V.float_ok(v):
             return False
-        sc = Q.scale(v, nf)
         if abs(sc) >= (1 << 53) or abs(v) >= (1 << 53):
             return False
         if not V.float_ok(sc):
@@ -584,10 +586,23 @@ class C04(Oracle):
             if i in st.pre and st.pre[i]['fmt'][1] > 52:
                 vals = None
         if vals is not None and sto.judge_flags and not any(isinstance(v, complex) for v in vals[1]):
-            if sto.arith is not None and not in_exact_float_domain(vals[1], nf):
+            # Magnitudes: C04's quantifier restricts the FORMATS, not the inputs.  Inside the core
+            # input domain everything is judged.  Beyond it only what cannot depend on the precision
+            # of the library's intermediates is judged: under saturate, an element whose scaled
+            # magnitude is >= 2^53 exceeds every <=52-bit word, so its overflow/underflow and its
+            # inexactness are certain; such DIRECT writes are judged when they arrive as integers
+            # (Python ints, integer arrays, raw codes), never under wrap.
+            sat = cfg['overflow'] == 'saturate'
+            big_ok = sat and sto.arith is None and (sto.raw or self.integer_carrier(st))
+            # (arithmetic is NOT included: operands are scaled in int64 and can wrap there silently -
+            #  seen: 2**43 * 2**34 -> 0 in a subtraction with sizing 'same' - which is C19's subject)
+            if sto.arith is not None and not in_exact_float_domain(vals[1], nf, False):
                 vals = None
-            elif not all(abs(Q.scale(v, nf)) < (1 << 62) and abs(v) < (1 << 53) for v in vals[1]):
+            elif not all((abs(Q.scale(v, nf)) < (1 << 62) and abs(v) < (1 << 53)) or
+                         (big_ok and abs(Q.scale(v, nf)) >= (1 << 53)) for v in vals[1]):
                 vals = None
+            elif any(abs(Q.scale(v, nf)) >= (1 << 62) or abs(v) >= (1 << 53) for v in vals[1]):
+                w.bump('c04_write_beyond_input_domain_judged')
         if vals is not None and sto.judge_flags:
             try:
                 got = np.asarray(tgt.val)
@@ -617,6 +632,13 @@ class C04(Oracle):
             if any(c != Q.quant(v, fmt, cfg['rounding'], cfg['overflow'])[0] for c, v in zip(gl, il)):
                 judged_exact = False
                 w.bump('c04_arith_value_not_exact_not_judged')
+            elif cfg['overflow'] == 'wrap' and (ovf_now or udf_now):
+                # under wrap the stored code only fixes the library's own intermediate modulo
+                # 2**n_word, so "the library stored the exact result" cannot be established for a
+                # result that leaves the range; such results are judged under saturate only
+                # (in-range results, where wrap changes nothing, are still judged)
+                judged_exact = False
+                w.bump('c04_arith_wrapping_result_not_judged')
         if judged_exact:
             w.bump('c04_write_judged')
             if ovf_now and udf_now:
@@ -672,6 +694,21 @@ class C04(Oracle):
             return
         if prop_inacc:
             w.bump('probe_inaccuracy_propagated')
+
+    @staticmethod
+    def integer_carrier(st):
+        """True iff the step's input value is carried by Python ints / integer NumPy data only."""
+        val = st.extra.get('val')
+
+        def ok(sp):
+            if sp[0] == 'i':
+                return True
+            if sp[0] == 'n' or sp[0] == 'a':
+                return 'int' in sp[1]
+            if sp[0] in ('l', 't'):
+                return all(ok(x) for x in sp[1])
+            return False
+        return val is not None and ok(val)
 
     def check_reset(self, w, st, culprit):
         d = st.dest
